@@ -52,6 +52,21 @@ def lookup(spec, service_full, method):
     return None, None
 
 
+def call_policy(spec, fs, s, m, call):
+    """(per-attempt timeout T, retry policy in force, retry deadline) of one call."""
+    T, pol = lookup(spec, fs["package"] + "." + s["name"], m["name"])
+    retry_T = T
+    call = call or {}
+    if call.get("retry") == "none":
+        pol = None
+    elif isinstance(call.get("retry"), dict):
+        pol = call["retry"]
+        retry_T = pol.get("timeout")
+    if "timeout" in call:
+        T = call["timeout"]
+    return T, pol, retry_T
+
+
 def eligible_methods(spec):
     out = []
     for fs, s, m in grammar.all_methods(spec):
